@@ -213,6 +213,17 @@ fn list_laws(ctx: &Ctx, sink: &mut Sink, i: u64) {
     for (x, y) in [("2", "1"), ("0", "1e9"), ("-1", "2"), ("0.5", "1.5"), ("0/0", "1"), ("0", "inf")] {
         l.no_crash("slice-odd", &format!("slice(A, {}, {})", x, y), &[]);
     }
+    // a slice that is returned for whole-number bounds start <= end has exactly end - start elements
+    for (x, y) in [(0, len + 1), (0, len + 5), (len, len + 1), (len + 2, len + 4), (len / 2, len + 3), (len, len), (len + 1, len + 1)] {
+        if let ROut::Ok(RVal::List(got)) = l.ev(&format!("slice(A, {}, {})", x, y)) {
+            if got.len() != y - x {
+                let mut c = l.ctx_desc.clone();
+                c["source"] = json!(format!("slice(A, {}, {})", x, y));
+                c["got_length"] = json!(got.len());
+                l.sink.viol("law=slice-length-is-end-minus-start", "a slice was returned that does not hold end - start elements", c);
+            }
+        }
+    }
     // flatten / chunk / zip
     let mut flat = Vec::new();
     for e in &a {
@@ -429,6 +440,32 @@ fn string_laws(ctx: &Ctx, sink: &mut Sink, i: u64) {
     }
     l.no_crash("string-slice-odd", "slice(S, 1, 0)", &[]);
     l.no_crash("string-slice-odd", "slice(S, 0, 99)", &[]);
+    // bounds past the end, equal bounds, reversed bounds: whatever slice does with them, it does the same to a string as to
+    // the list of that string's characters, and a slice that is returned has exactly end - start characters
+    for (x, y) in [(0, nch + 1), (0, nch + 5), (nch, nch + 1), (nch + 2, nch + 4), (nch / 2, nch + 3), (nch, nch), (nch + 1, nch + 1), (0, 0), (1, 0), (nch + 3, nch)] {
+        let on_string = l.ev(&format!("slice(S, {}, {})", x, y));
+        let on_chars = l.ev(&format!("join(slice([...S], {}, {}), \"\")", x, y));
+        let same = match (&on_string, &on_chars) {
+            (ROut::Ok(p), ROut::Ok(q)) => p == q,
+            (ROut::Err(_), ROut::Err(_)) => true,
+            _ => false,
+        };
+        if !same {
+            let mut c = l.ctx_desc.clone();
+            c["source"] = json!(format!("slice(S, {}, {})", x, y));
+            c["on_string"] = json!(on_string.show());
+            c["on_list_of_characters"] = json!(on_chars.show());
+            l.sink.viol(&format!("law=string-slice-agrees-with-slice-of-characters {}", cls), "slice treats a string differently from the list of its characters", c);
+        }
+        if let (ROut::Ok(RVal::Str(got)), true) = (&on_string, y >= x) {
+            if got.chars().count() != y - x {
+                let mut c = l.ctx_desc.clone();
+                c["source"] = json!(format!("slice(S, {}, {})", x, y));
+                c["got"] = json!(on_string.show());
+                l.sink.viol(&format!("law=string-slice-length-is-end-minus-start {}", cls), "a slice was returned that does not hold end - start characters", c);
+            }
+        }
+    }
     l.expect("join-split-identity", "join(split(S, D), D)", &s(&sv));
     let non_empty: Vec<RVal> = chars.iter().map(|c| s(c)).collect();
     l.expect("split-empty-delimiter-gives-characters", "split(S, \"\") where (c => c != \"\")", &list(non_empty));
